@@ -326,8 +326,10 @@ func checkHistory(rep *Report, pool *DriverPool, c *WCase) {
 			rep.Violate("short-write", "", fmt.Sprintf("op %d returned n=%d", i, obs.Res[i].N), c)
 		}
 	}
-	out := obs.Bytes(0)
-	data := written(datas, c.Ops)[0]
+	// the stream that is checked is the one on the last destination (histories with a Reset)
+	lastD := len(obs.Dests) - 1
+	out := obs.Bytes(lastD)
+	data := written(datas, c.Ops)[lastD]
 	useSpec := specAffordable(c.Set, c.Datas[0])
 	spec := checkStream(rep, pool, c, "", out, data, dict, useSpec)
 	rep.Digest(c.ID, data) // level-independent: the data every level must round-trip
@@ -404,8 +406,8 @@ func checkFlushPrefixes(rep *Report, pool *DriverPool, c *WCase, datas [][]byte,
 			if obs.Res[i].Err != "" {
 				continue
 			}
-			out := obs.Bytes(0)
-			data := written(datas, pre)[0]
+			out := obs.Bytes(len(obs.Dests) - 1)
+			data := written(datas, pre)[len(obs.Dests)-1]
 			rep.Count("flush-prefix")
 			checkFlushPrefix(rep, pool, c, i, out, data, dict, useSpec)
 		}
